@@ -151,7 +151,13 @@ class Executor(object):
         if isinstance(v, ListV):
             return st.heap.list_len(v.owner, v.field) > 0
         if isinstance(v, Opt):
-            return Not(v.isnone)
+            # an optional is true when it is not None AND its value is true (0.0, an empty list ... are false as well)
+            inner = self.truth(st, v.val)
+            if isinstance(v.isnone, bool):
+                return False if v.isnone else inner
+            if isinstance(inner, bool):
+                return Not(v.isnone) if inner else False
+            return And(Not(v.isnone), inner)
         if isinstance(v, RefV):
             return v.term != dsl.NONE
         if isinstance(v, str):
@@ -535,6 +541,8 @@ class Executor(object):
         if isinstance(e, ast.Compare) and len(e.ops) == 1 and isinstance(e.ops[0], (ast.Is, ast.IsNot)) and isinstance(e.left, ast.Name) \
                 and isinstance(e.comparators[0], ast.Constant) and e.comparators[0].value is None and isinstance(st.locals.get(e.left.id), Opt):
             narrow = (e.left.id, isinstance(e.ops[0], ast.IsNot))
+        if isinstance(e, ast.Name) and isinstance(st.locals.get(e.id), Opt):
+            narrow = (e.id, True)       # `if name:` - a true optional is not None
         for (s, v) in self.eval(e, st):
             if isinstance(v, _Raised):
                 out.append((s, v))
@@ -760,11 +768,34 @@ class Executor(object):
         return isinstance(v, (bool, PyObjV)) or (is_z3(v) and v.sort() == z3.BoolSort())
 
     def expr_BoolOp(self, e, st):
-        # value-producing and/or: supported for boolean-valued operands
-        out = []
-        for (s, b) in self._cond_boolop(e, st):
-            out.append((s, b))
-        return out
+        """value-producing and/or: Python returns the deciding OPERAND, not its truth value (`x or default` is x when x is true).  Boolean
+        operands keep the forked python-bool form used by conditions."""
+        is_and = isinstance(e.op, ast.And)
+        boolish = lambda v: isinstance(v, bool) or (is_z3(v) and v.sort() == z3.BoolSort())
+        results = []
+        work = [(st, 0)]
+        last = len(e.values) - 1
+        while work:
+            s, k = work.pop()
+            for (s1, v) in self.eval(e.values[k], s):
+                if isinstance(v, _Raised):
+                    results.append((s1, v))
+                    continue
+                if k == last and not boolish(v):
+                    results.append((s1, v))
+                    continue
+                t = self.truth(s1, v)
+                for (s2, b) in self.branch(s1, t):
+                    val = b if boolish(v) else v
+                    if k == last:
+                        results.append((s2, val))
+                    elif is_and and not b:
+                        results.append((s2, val))
+                    elif (not is_and) and b:
+                        results.append((s2, val))
+                    else:
+                        work.append((s2, k + 1))
+        return results
 
     def expr_IfExp(self, e, st):
         out = []
